@@ -23,6 +23,12 @@ def expr_of(op):
     if fn == "dateadd":
         y, m, d = op["d"]
         return f"dateadd({op['part']}, {op['n']}, '{y:04d}-{m:02d}-{d:02d}'::date)"
+    if fn == "dateaddsub":
+        y, m, d = op["d"]
+        return f"dateadd({op['part']}, {op['n']}, '{y:04d}-{m:02d}-{d:02d}'::date)"
+    if fn == "totimestamp":
+        n = {0: "1700000000", 3: "1700000000123", 6: "1700000000123456", 9: "1700000000123456000"}[op["scale"]]
+        return f"{op['name']}({n}, {op['scale']})"
     if fn == "datediff":
         a, b = op["a"], op["b"]
         return f"datediff({op['part']}, '{a[0]:04d}-{a[1]:02d}-{a[2]:02d}'::date, '{b[0]:04d}-{b[1]:02d}-{b[2]:02d}'::date)"
@@ -74,7 +80,10 @@ def canon(v, op):
             return "val", repr(v), ty
         return "val", str(int(decimal.Decimal(v).scaleb(op["s"]).to_integral_value())) if decimal.Decimal(v).scaleb(op["s"]) == decimal.Decimal(v).scaleb(op["s"]).to_integral_value() else repr(v), "Decimal" if isinstance(v, decimal.Decimal) else ty
     if isinstance(v, datetime.datetime):
-        return "val", v.date().isoformat() if (v.hour, v.minute, v.second, v.microsecond) == (0, 0, 0, 0) else v.isoformat(), "datetime"
+        cls = "datetime" if v.tzinfo is None else "datetime_tz"
+        if op["fn"] in ("dateaddsub", "totimestamp"):
+            return "val", v.replace(tzinfo=None).isoformat(), cls
+        return "val", v.date().isoformat() if (v.hour, v.minute, v.second, v.microsecond) == (0, 0, 0, 0) else v.isoformat(), cls
     if isinstance(v, datetime.date):
         return "val", v.isoformat(), "date"
     if isinstance(v, bool):
@@ -288,6 +297,18 @@ class C10(Prop):
             cur.execute("create or replace table ja (i int)")
             cur.execute("insert into ja values (1), (2)")
             ok = cur.execute("select a.i + 1 as k, b.i from ja a join ja b on k = b.i order by 1").fetchall() == [(2, 2)]
+        elif rel == "sha2_binary_arg_rejected_or_right":
+            # a form that is not supported is rejected rather than answered wrongly
+            ok = True
+            cur.execute("create or replace table chain (digest binary)")
+            cur.execute("insert into chain select sha2_binary('abc')")          # 32 raw bytes, most of them not printable
+            inner = hashlib.sha256(b"abc").digest()
+            for q, want in (("select sha2('abc'::binary)", hashlib.sha256(b"abc").hexdigest()), ("select sha2(digest) from chain", hashlib.sha256(inner).hexdigest()),
+                            ("select sha2_hex(digest, 256) from chain", hashlib.sha256(inner).hexdigest())):
+                try:
+                    ok = ok and one(q) == want
+                except Exception:
+                    pass
         elif rel == "join_alias_other_block":
             # an alias of ANOTHER query block (derived table, CTE, scalar subquery) is not an alias of this select list
             cur.execute("create or replace table jb (id int, s varchar)")
